@@ -318,13 +318,13 @@ impl Prop for Token {
     }
     fn streams(&self) -> Vec<Stream> {
         match self.0 {
-            Which::Invariants => vec![Stream::new("exhaustive", NL * 15, NL * 15), Stream::new("random", 32000, 1600000), Stream::new("corpus", 64, 64), Stream::new("boundary", NL * 4, NL * 16)],
+            Which::Invariants => vec![Stream::new("exhaustive", NL * 15, NL * 15), Stream::new("random", 32000, 1600000), Stream::new("corpus", 64, 64), Stream::new("boundary", NL * 4, NL * 16), Stream::new("codepoints", 256, 256)],
             Which::Variants => vec![Stream::new("stores", 32000, 1600000)],
         }
     }
     fn floors(&self) -> Vec<(&'static str, u64, u64)> {
         match self.0 {
-            Which::Invariants => vec![("exhaustive strings", 250000, 4000000), ("texts with padding", 5000, 50000), ("texts with a stemmed word", 1000, 10000), ("queries with unfinished last word", 50000, 500000), ("texts whose length changed under normalisation", 5000, 50000), ("random hostile strings", 5000, 50000), ("random texts of 100-600 symbols", 1000, 10000), ("corpus titles", 3000, 3000), ("texts with a piece at a power-of-two position", 1500, 6000)],
+            Which::Invariants => vec![("exhaustive strings", 250000, 4000000), ("texts with padding", 5000, 50000), ("texts with a stemmed word", 1000, 10000), ("queries with unfinished last word", 50000, 500000), ("texts whose length changed under normalisation", 5000, 50000), ("random hostile strings", 5000, 50000), ("random texts of 100-600 symbols", 1000, 10000), ("corpus titles", 3000, 3000), ("texts with a piece at a power-of-two position", 1500, 6000), ("code points tokenised", 3000000, 13000000)],
             Which::Variants => vec![("variants decomposed", 2000, 20000), ("variants folded", 2000, 20000), ("variants re-cased", 5000, 50000), ("variants separator prefix", 2000, 20000), ("variants of a query with hits", 5000, 50000), ("stored-decomposed comparisons", 1000, 10000), ("variants longer than 128 characters", 300, 3000)],
         }
     }
@@ -429,6 +429,26 @@ impl Prop for Token {
                 }
                 give_lang(lang, lobj);
                 cx.count("random hostile strings");
+            }
+            (Which::Invariants, "codepoints") => {
+                // EVERY Unicode scalar value (1 112 064 of them, 4352 per case), inside a word, at a word start and on its own,
+                // through both tokenisers: three languages per case in the quick tier, all of them in the thorough tier
+                let langs: Vec<&'static str> = if cx.tier == Tier::Thorough { LANGS.to_vec() } else { (0..3).map(|j| LANGS[((idx as usize) + j * 4) % LANGS.len()]).collect() };
+                let lo = idx as u32 * 4352;
+                for lang in langs {
+                    let lobj = take_lang(lang);
+                    for v in lo..lo + 4352 {
+                        if let Some(c) = std::char::from_u32(v) {
+                            let text = format!("x{}y {}z {}", c, c, c);
+                            check_both(cx, lang, &lobj, &text);
+                            cx.count("code points tokenised");
+                            if cx.viols.len() >= 50 {
+                                break;
+                            }
+                        }
+                    }
+                    give_lang(lang, lobj);
+                }
             }
             (Which::Invariants, "boundary") => {
                 // long texts in which a decomposed letter / an expanding letter / a separator sits exactly at, before and after
